@@ -37,6 +37,11 @@ NOENTRY = {"thr": 0, "call": "none", "v": 0, "h": 0}
 OUTCOME = {"ok": "addSuccess", "er": "addError"}
 
 
+import datetime
+
+RAW_TIME = datetime.datetime(2002, 2, 2, tzinfo=datetime.timezone.utc)
+
+
 class MakeFault(Exception):
     pass
 
@@ -79,6 +84,13 @@ class SubSuite:
         for i, t in enumerate(self.tests, 1):
             if t == "raw":
                 result.status(test_id=tid_of(self.w, i), test_status="success", route_code="sub")
+            elif t == "rawn":
+                # every keyword spelled out, the timestamp explicitly None (e.g. a relayed recorded stream)
+                result.status(test_id=tid_of(self.w, i), test_status="success", test_tags=None, runnable=True,
+                              file_name=None, file_bytes=None, eof=False, mime_type=None, route_code=None,
+                              timestamp=None)
+            elif t == "rawt":
+                result.status(test_id=tid_of(self.w, i), test_status="success", timestamp=RAW_TIME)
             else:
                 out = OUTCOME.get(t, t)
                 PlaceHolder(tid_of(self.w, i), outcome=out).run(result)
@@ -501,7 +513,7 @@ def systematic_scenarios(tier):
     sc.append(("suite", s2, N, 1, N, 2))
     sc.append(("suite", s2, 1, N, N, 2))
     sc.append(("suite", [Sc(["er"], "base"), Sc([])], N, N, N, 2))
-    t2 = [Sc(["raw"]), Sc(["ok"])]
+    t2 = [Sc(["raw", "rawn"]), Sc(["rawt"])]
     sc.append(("stream", t2, N, N, N, 2))
     sc.append(("stream", t2, N, N, 1, 2))
     sc.append(("stream", t2, N, 2, N, 2))
@@ -516,6 +528,7 @@ def systematic_scenarios(tier):
     sc.append(("stream", shn, N, N, N, 1))
     sc.append(("stream", sha, N, 2, N, 1))
     sc.append(("stream", shn, N, N, 1, 1))
+    sc.append(("stream", [Sc(["rawn"], route=None), Sc(["rawt", "rawn"], route=None)], N, N, N, 1))
     sc.append(("stream", [Sc([], True, route="a"), Sc([], True, route="a")], N, N, N, 1))
     # three workers sharing one code
     sc.append(("stream", [Sc([], route=None), Sc([], route=None), Sc([], route=None)], N, N, N, 1))
@@ -552,7 +565,7 @@ def systematic_scenarios(tier):
 def random_scenario(rng):
     variant = rng.choice(("suite", "stream"))
     n = rng.choice((1, 2, 2, 3, 3, 4))
-    kinds = ("ok", "er") if variant == "suite" else ("ok", "er", "raw")
+    kinds = ("ok", "er") if variant == "suite" else ("ok", "er", "raw", "rawn", "rawt")
     script = [Sc([rng.choice(kinds) for _ in range(rng.randint(0, 3))], rng.choice((False, False, False, False, True, True, "base")))
               for _ in range(n)]
     if variant == "stream" and n >= 2 and rng.random() < 0.5:
@@ -582,7 +595,7 @@ def random_scenario(rng):
 def abstract(tr):
     return {
         "variant": tr["variant"],
-        "script": [("".join({"addSuccess": "o", "addError": "e"}.get(t, t[0]) for t in s["tests"]) or "-") + {"no": "", "exc": "!", "base": "!!"}[s["raises"]] + ("@" + s["route"] if "route" in s else "") for s in tr["script"]],
+        "script": [("".join({"addSuccess": "o", "addError": "e", "rawn": "n", "rawt": "t"}.get(t, t[0]) for t in s["tests"]) or "-") + {"no": "", "exc": "!", "base": "!!"}[s["raises"]] + ("@" + s["route"] if "route" in s else "") for s in tr["script"]],
         "faults": {k: tr[k] for k in ("makeFault", "intrAt", "cfault") if tr.get(k, NOFAULT) != NOFAULT},
         "schedule": "".join(str(e["thr"]) for e in tr["ev"]),
         "end": tr["ev"][-1]["main"] + ":" + tr["ev"][-1]["prop"] if tr["ev"] else "",
